@@ -47,7 +47,7 @@ func runC09(c *Ctx) bool {
 			continue
 		}
 		r := gen.New(c.Seed, 901, uint64(j))
-		classes := []int{gen.ClassPlain, gen.ClassExt, gen.ClassUnicode, gen.ClassQuoting, gen.ClassBullet}
+		classes := []int{gen.ClassPlain, gen.ClassExt, gen.ClassUnicode, gen.ClassQuoting, gen.ClassBullet, gen.ClassCase}
 		kind := "random"
 		if r.Chance(1, 3) {
 			classes = []int{gen.ClassPlain, gen.ClassExt, gen.ClassPathHostile}
@@ -255,6 +255,20 @@ func evalC09(c *Ctx, cs *Case) {
 				}
 				base := runtime.NumGoroutine()
 				var o Outcome
+				if (ei+len(root.Name)+int(cs.Seed%4))%4 == 0 {
+					// before a quarter of the calls: the same dry run while the report's destination
+					// refuses writes (what such a failed call leaves behind must not reach the next report)
+					bad := mon.NewRecWriter()
+					bad.FailAt, bad.Short = 0, true
+					oldOut := color.Output
+					color.Output = bad
+					_ = mkdirCall(mkdirRoutes[1], "", root, append(fsOpts(j.Target, exts, hasExt, true, massive, false), bopts...))
+					if massive {
+						c09Quiet.Quiesce(base)
+					}
+					color.Output = oldOut
+					c.Count("dry_runs_preceded_by_a_failed_report", 1)
+				}
 				rep := captureColorOutput(func() {
 					// a third of the calls name a target directory that does not exist yet: a dry run must not create it
 					tgt := j.Target
